@@ -19,12 +19,20 @@ def main():
     args = sys.argv[1:]
     sid = args.pop(0)
     repo, apply = None, False
+    made_wt = None
     if args and args[0] == "--repo":
         args.pop(0)
         repo = args.pop(0)
     elif args and args[0] == "--apply":
         args.pop(0)
         apply = True
+    elif args and args[0] == "--worktree":
+        # temporary worktree of /repo HEAD with the patch applied (leaves /repo untouched; removed afterwards)
+        args.pop(0)
+        repo = f"/tmp/vf-seed-{sid}-{os.getpid()}"
+        subprocess.run(["git", "-C", "/repo", "worktree", "add", "-q", "--detach", repo, "HEAD"], check=True)
+        subprocess.run(["git", "-C", repo, "apply", str(ROOT / "seeded" / sid / "patch.diff")], check=True)
+        made_wt = repo
     sd = ROOT / "seeded" / sid
     meta = json.loads((sd / "meta.json").read_text())
     checks = args or [meta["property"]]
@@ -48,7 +56,9 @@ def main():
     finally:
         if apply:
             subprocess.run(["git", "-C", "/repo", "checkout", "--", "."], check=True)
-    meta.setdefault("runs", []).append({"how": "apply" if apply else f"VF_REPO={repo}", "results": results})
+        if made_wt:
+            subprocess.run(["git", "-C", "/repo", "worktree", "remove", "--force", made_wt])
+    meta.setdefault("runs", []).append({"how": "apply" if apply else ("temporary worktree of /repo HEAD + patch" if made_wt else f"VF_REPO={repo}"), "results": results})
     meta["detected_by"] = sorted({c for run in meta["runs"] for c, r in run["results"].items() if r["violation"]})
     (sd / "meta.json").write_text(json.dumps(meta, indent=1) + "\n")
 
